@@ -10,6 +10,9 @@ using namespace vf;
 static Fields gen(Tape &t) {
   Fields f;
   ops_to_fields(f, g_history(t, SEG_ANY, false, 8));
+  // in a quarter of the histories every call goes through a custom memory manager whose k-th request of *each* call
+  // fails once: whatever a call then still returns as a success must satisfy the invariant like any other result
+  f.seti("fault", t.chance(3, 4) ? 0 : t.range(1, 6));
   return f;
 }
 
@@ -63,15 +66,19 @@ template <class A> static Verdict invariant(typename A::Uri &u, char producer, c
   return Verdict::pass();
 }
 
-template <class A> static Verdict run(const std::vector<Op> &ops, int *nonparse, bool *pathChanged, std::vector<std::string> *bigrams) {
+template <class A> static Verdict run(const std::vector<Op> &ops, int fault, int *nonparse, bool *pathChanged, std::vector<std::string> *bigrams, int *bitten) {
+  LedgerMM mm;  // declared before the world: the world releases its objects through it
   World<A> w;
+  if (fault > 0) w.defaultMm = &mm.mm;
   char prev = 0;
   for (auto &op : ops) {
+    if (fault > 0) { mm.reset_counts(); mm.reset_plan(); mm.fail_at = (uint64_t)fault; }
     std::string before;
     int n = w.size();
     int tgt = n ? ((op.i % n) + n) % n : 0;
     if ((op.kind == 'N' || op.kind == 'O') && n && w.at(tgt).valid) before = snapshot<A>(w.at(tgt).uri).pathText();
     typename World<A>::Res r = w.exec(op);
+    if (fault > 0) { if (mm.failed && !r.skipped) (*bitten)++; mm.reset_plan(); }
     stats().sub_evaluations++;
     if (r.skipped) continue;
     if (op.kind != 'P') {
@@ -80,7 +87,7 @@ template <class A> static Verdict run(const std::vector<Op> &ops, int *nonparse,
       prev = op.kind;
     }
     if (r.produced < 0) continue;
-    Verdict v = invariant<A>(w.at(r.produced).uri, op.kind, op.str());
+    Verdict v = invariant<A>(w.at(r.produced).uri, op.kind, op.str() + (fault > 0 ? " (allocation " + std::to_string(fault) + " of each call fails once)" : ""));
     if (v.kind != Verdict::PASS) return v;
     if (op.kind == 'N' && snapshot<A>(w.at(r.produced).uri).pathText() != before) *pathChanged = true;
     if (op.kind == 'R' || op.kind == 'B') *pathChanged = true;
@@ -92,11 +99,14 @@ static Verdict check(const Fields &f) {
   std::vector<Op> ops = ops_from_fields(f);
   for (auto &op : ops) if (op.kind == 'P' && !uriref_matcher().matches(op.text)) return Verdict::discard();
   int np = 0; bool pc = false; std::vector<std::string> bg;
-  Verdict v = run<Api<char>>(ops, &np, &pc, &bg);
+  int fault = (int)f.geti("fault"), bitten = 0;
+  Verdict v = run<Api<char>>(ops, fault, &np, &pc, &bg, &bitten);
   if (v.kind != Verdict::PASS) return v;
   int np2 = 0; bool pc2 = false; std::vector<std::string> bg2;
-  v = run<Api<wchar_t>>(ops, &np2, &pc2, &bg2);
+  v = run<Api<wchar_t>>(ops, fault, &np2, &pc2, &bg2, &bitten);
   if (v.kind != Verdict::PASS) return v;
+  stats().hit("fault=" + std::to_string(fault));
+  if (fault > 0) { stats().hit("histories_with_fault_plan"); if (bitten) stats().hit("histories_where_a_fault_bit"); }
   for (auto &b : bg) stats().hit("bigram " + b);
   stats().hit("histories");
   if (np >= 2 && pc) { std::string k = f.text(); std::string s; for (auto &op : ops) s += op.str() + " ; "; stats().nontrivial(k, s); }
